@@ -54,7 +54,7 @@ type Proof struct {
 }
 
 func (p *Proof) IsValid(public Public) bool {
-	if p == nil {
+	if p == nil || p.Commitment == nil {
 		return false
 	}
 	if p.A.IsIdentity() || p.N.IsIdentity() || p.B.IsIdentity() {
